@@ -160,12 +160,25 @@ def run_golden(eng, p):
         return z3.And(z3.Not(m_none), z3.Length(m) > 0,
                       z3.Or(s_none, z3.Not(z3.Contains(s, m))))
 
-    bad = z3.Or(lacks(ns.match_out, g0.out), lacks(ns.match_err, g0.err))
+    # C10: "a golden run whose output lacks a configured match string stops
+    # ddSMT with status 1" - every golden run, so the cross-check run with
+    # its own strings as well as the main one.  Stated from the property,
+    # not from the branches the code happens to have.
+    bad_main = z3.Or(lacks(ns.match_out, g0.out),
+                     lacks(ns.match_err, g0.err))
+    if len(calls) > 1:
+        g1c = calls[1][3]
+        bad_cc = z3.Or(lacks(ns.match_out_cc, g1c.out),
+                       lacks(ns.match_err_cc, g1c.err))
+    else:
+        bad_cc = z3.BoolVal(False)
+    bad = z3.Or(bad_main, bad_cc)
     if exited:
         p.oblige(f'{N}/exit-status-1', out.value.code == 1)
         p.oblige(f'{N}/exit-only-if-match-string-absent', bad)
         return
-    p.oblige(f'{N}/absent-match-string-stops', z3.Not(bad))
+    p.oblige(f'{N}/absent-match-string-stops', z3.Not(bad_main))
+    p.oblige(f'{N}/absent-cc-match-string-stops', z3.Not(bad_cc))
     p.oblige(f'{N}/golden-run-on-input-file',
              calls[0][0] is ns.cmd and calls[0][1] is ns.infile and
              calls[0][2] is t_before)
@@ -198,6 +211,72 @@ def run_golden(eng, p):
                        z3.And(z3.Not(an), av == tv)))
 
 
+def replay_golden(name, model, detail):
+    """The real do_golden_runs() with execute() returning the records of the
+    counter-model; fails when the outcome disagrees with the property: exit
+    status 1 iff some configured match string (main or cross-check) is
+    absent from its golden run, and nothing else raised."""
+    def opt(tag, kind):
+        if model.get(f'{tag}_is_none', False):
+            return None
+        return model.get(tag, '' if kind == 'str' else 0)
+
+    def rec(tag):
+        to = bool(model.get(f'{tag}_timed_out', False))
+        return [opt(f'{tag}_exit', 'int'),
+                None if to else model.get(f'{tag}_out', ''),
+                None if to else model.get(f'{tag}_err', ''), 0.0]
+
+    A = {
+        'opts': {
+            'cmd': ['cmd'], 'infile': 'in.smt2',
+            'cmd_cc': None if model.get('cmd_cc_is_none', False) else ['cc'],
+            'timeout': None if model.get('timeout_is_none', False) else 1.0,
+            'timeout_cc': None if model.get('timeout_cc_is_none', False)
+            else 2.0,
+            'ignore_output': bool(model.get('ignore_output', False)),
+            'ignore_out': bool(model.get('ignore_out', False)),
+            'ignore_err': bool(model.get('ignore_err', False)),
+            'match_out': opt('match_out', 'str'),
+            'match_err': opt('match_err', 'str'),
+            'match_out_cc': opt('match_out_cc', 'str'),
+            'match_err_cc': opt('match_err_cc', 'str'),
+        },
+        'g0': rec('g0'), 'g1': rec('g1'),
+    }
+    script = f'''
+import sys, types
+sys.argv = ['ddsmt', 'in.smt2', 'out.smt2', 'cmd']
+from ddsmt import checker, options
+A = {A!r}
+ns = types.SimpleNamespace(**A['opts'])
+setattr(options, '__PARSED_ARGS', ns)
+R = checker.RunInfo
+calls = []
+def fake_execute(cmd, filename, timeout):
+    calls.append(list(cmd))
+    return R(*A['g0']) if cmd == ['cmd'] else R(*A['g1'])
+checker.execute = fake_execute
+def lacks(m, s):
+    return bool(m) and (s is None or m not in s)
+o = A['opts']
+want = lacks(o['match_out'], A['g0'][1]) or lacks(o['match_err'], A['g0'][2])
+if not want and o['cmd_cc']:
+    want = (lacks(o['match_out_cc'], A['g1'][1]) or
+            lacks(o['match_err_cc'], A['g1'][2]))
+try:
+    checker.do_golden_runs(); got = None
+except SystemExit as e:
+    got = e.code
+except Exception as e:
+    print('do_golden_runs raised', type(e).__name__, e, 'on', A); sys.exit(1)
+print('input', A, 'golden runs', calls, 'exit status', got,
+      '; property: status 1 iff a configured match string is absent:', want)
+sys.exit(1 if (got == 1) != want or got not in (None, 1) else 0)
+'''
+    return {'script': script, 'input': A}
+
+
 def contracts(tier):
     A = [env.ASSUME_OPTIONS, env.ASSUME_SUBPROCESS, env.ASSUME_RESOURCE,
          env.ASSUME_TIME,
@@ -215,7 +294,7 @@ def contracts(tier):
         Contract('C10/matches_golden', ['ddsmt.checker.matches_golden'],
                  run_timeout_rejected, setup=c09_setup, assumptions=A[:1]),
         Contract('C10/do_golden_runs', ['ddsmt.checker.do_golden_runs'],
-                 run_golden, setup=c09_setup,
+                 run_golden, setup=c09_setup, replay=replay_golden,
                  assumptions=A[:1] + [
                      'execute() abstracted: returns an arbitrary record with '
                      'runtime >= 0; round(x, 2) is within 0.005 of x; floats '
